@@ -486,7 +486,10 @@ def config_lines(rng):
         rest_names = [x for x in order if x not in h]
         head = {'n': nd(h[0], True)}
         for x in h[1:]:
-            head = (OR if rng.random() < 0.5 else AND)(head, {'n': nd(x, True)})
+            if rng.random() < 0.5:
+                head = OR(head, {'n': nd(x, True)})
+            else:
+                head = AND(PAR(head) if 'or' in head else head, {'n': nd(x, True)})
         if 'or' in head and rng.random() < 0.5:
             head = PAR(head)
         rest = [[nd(x, False)] for x in rest_names[:k - 1]]
@@ -636,6 +639,8 @@ class C14(Prop):
         'CylcModel.C14.triggers_recorded',
         'CylcModel.C14.triggers_origin',
         'CylcModel.C14.expression_meaning',
+        'CylcModel.C14.optionality_recorded',
+        'CylcModel.C14.optionality_origin',
         'CylcModel.C14.node_text_injective',
         'CylcModel.C14.malformed_rejected_partial_leading',
         'CylcModel.C14.malformed_rejected_partial_dangling',
@@ -658,14 +663,17 @@ class C14(Prop):
         'expression_meaning] the recorded non-empty trigger expressions are exactly the expressions of the written '
         'left sides (whole if conditional/parenthesised, else per &-joined node), with the right node\'s suicide '
         'flag, and mean them (plain = succeeded, alias = standard output, finish = succeeded or failed); '
+        '[optionality_recorded, optionality_origin] the optionality table holds exactly what right-hand / lone '
+        'nodes without suicide mark declare (explicit qualifier with or without ?, inferred succeeded, finish = '
+        'succeeded and failed optional); '
         '[node_text_injective] valid node texts determine nodes; MALFORMED [malformed_rejected_partial_*] leading / '
         'dangling operators, && / ||, two names separated by white space, bad nodes on the lines the node check '
         'looks at are rejected with GraphParseError. NOT proved: (a) parseText on canonical lines = parseStruct on '
         'the AST (regex lexing of nodes/expressions of well-formed lines: tied by correspondence only, both models '
         'are compared with the real parser on every AST case); (b) rejection of every text outside the grammar - '
         'false on the unchanged code (findings bad-node-not-last-line, lone-line-unchecked, expression-unchecked, '
-        'rhs-valueerror); (c) optionality tables are covered by lines_set_invariant / chain_vs_pairs and the judge, '
-        'not by a separate faithfulness theorem')
+        'rhs-valueerror); (c) the end-of-chain rule for the inferred :succeeded is only characterised through the '
+        'model function rightOutput in optionality_origin (explicit qualifiers: optionality_recorded)')
     technique = ('fold characterisation by sets of declarations (invariants over the assoc-list tables) + '
                  'automaton/induction proofs over laid-out token lines + generated-table decide + seeded correspondence '
                  'of two models with a spec-side reference reader as judge')
@@ -799,7 +807,7 @@ class C14(Prop):
         return out
 
     def gen(self, tier, rng):
-        n_ast, nforms, n_raw = {'quick': (900, 5, 2500), 'thorough': (10000, 8, 60000)}.get(tier, (30000, 8, 150000))
+        n_ast, nforms, n_raw = {'quick': (700, 5, 2000), 'thorough': (10000, 8, 60000)}.get(tier, (30000, 8, 150000))
         bases = []
         for k in range(n_ast):
             lines = plain_lines(rng) if k % 4 == 0 else rand_lines(rng)
